@@ -1,5 +1,400 @@
 import OasisModel.Proto
-/- C19 stateless verification: driver stub (not built yet). -/
+import OasisModel.Stateless.Sha256
+import OasisModel.Stateless.Merkle
+import OasisModel.Stateless.Verify
+/-
+C19 stateless verification: line-protocol driver (`om_stateless`).
+
+Every line is `<op> k=v k=v …`; the line carries what the *implementation* answered (`want=`) and
+the values the Go side computed with the real third-party libraries (decoded CBOR/protobuf,
+CometBFT header hash …), which instantiate `Lib`.  `H` is SHA-256.  The model recomputes the
+verdict (and every Merkle root / proof) and answers `ok` or `DIVERGE <detail>`.
+
+Values: integers (possibly negative), hex byte strings (`-` or `.` = empty), lists = elements
+separated by `,` (`-` = empty list), `none` for an absent optional.
+
+  sha     in= want=
+  root    items= want=                                   Merkle.root over raw items
+  txroot  txs= want=                                     RootHashOfTransactions / Txs.Hash
+  proof   txs= i= total= index= leaf= aunts=             ProofsForTransactions(txs)[i] (decoded)
+  vproof  want= dec=0|1 total= index= leaf= aunts= root= tx=      verifyTransactionProof
+  vtxs    want=0|1 txs= dh=                              verifyTransactions
+  vblock  want= [ref=1] b.h= b.hash= b.ts= b.tn= b.ns= b.ver= b.typ= b.root= b.size=
+          md=0|1 m.hdr= cd=0|1 c.h= c.r= c.bid= c.sigs= lb.h= lb.hash= lb.ts= lb.tn= lb.app= lb.enc= lb.lch= lb.lbid=
+  vres    want= [ref=1] r.h= md=0|1 txs=<code:data:gw:gu:enc,…> rh= lb.h=          pure verifyBlockResults
+  vresc   want= [ref=1] last=<int|none> next=<lastResultsHash|none> r.h= md= txs= lb.h=   (*Core).verifyBlockResults
+  vvals   want= [ref=1] v.h= md=0|1 vals=<pub:power:enc,…> lb.h= lb.nvh=
+  vparams want= [ref=1] p.h= md=0|1 mb= mg= hp= lb.h= lb.ch= st=<hex|none> pp=
+  sroot   want=<hex|err> next=<apphash|none> cur=<datahash|none> ptxs=<list|none> dm=<hex|none>
+
+For `want=ok` lines the executable specification predicate is evaluated as well, and — once a
+reference response was stored with `ref=1` — the agreement predicate between the reference and
+every later accepted response (spec-on-implementation: an accepted altered response may differ
+from the original only in fields the theorems list as unbound).
+-/
 namespace OasisModel.Stateless.Driver
-def main : IO Unit := IO.eprintln "mode not implemented"
+open OasisModel.Proto OasisModel.Stateless
+
+abbrev KV := List (String × String)
+
+def parseKV (ws : List String) : KV :=
+  ws.filterMap fun w =>
+    match w.splitOn "=" with
+    | [k, v] => some (k, v)
+    | _ => none
+
+def get (kv : KV) (k : String) : Option String := (kv.find? (·.1 == k)).map (·.2)
+
+def hexE (s : String) : Option Bytes :=
+  if s == "-" || s == "." || s == "" then some [] else parseHex s
+
+def parseInt (s : String) : Option Int :=
+  if s.startsWith "-" then (s.drop 1).toString.toNat?.map (fun n => - (n : Int))
+  else s.toNat?.map (fun n => (n : Int))
+
+def hexList (s : String) : Option (List Bytes) :=
+  if s == "-" then some [] else (s.splitOn ",").mapM hexE
+
+def getHex (kv : KV) (k : String) : Option Bytes := get kv k >>= hexE
+def getInt (kv : KV) (k : String) : Option Int := get kv k >>= parseInt
+def getNat (kv : KV) (k : String) : Option Nat := get kv k >>= String.toNat?
+def getList (kv : KV) (k : String) : Option (List Bytes) := get kv k >>= hexList
+def getFlag (kv : KV) (k : String) : Bool := get kv k == some "1"
+
+/-- optional hex: `none` → `some none`. -/
+def getOptHex (kv : KV) (k : String) : Option (Option Bytes) :=
+  match get kv k with
+  | none => none
+  | some "none" => some none
+  | some s => (hexE s).map some
+
+def H : Bytes → Bytes := Sha256.sum
+
+/-! Driver instantiation of the model's type parameters: a commit signature and an event list
+are their encodings; `genesis.Parameters` is its CBOR encoding. -/
+abbrev DLib := Lib Bytes Unit Bytes
+
+/-- A `Lib` whose functions are the oracles given on the current line. -/
+structure Oracles where
+  headerHash : Bytes := []
+  headerEnc : Bytes := []
+  blockMeta : Option BlockMeta := none
+  commit : Option (Commit Bytes) := none
+  results : Option (ResultsMeta Unit) := none
+  detTable : List ((Nat × Bytes × Int × Int) × Bytes) := []
+  validators : Option ValidatorSet := none
+  valTable : List ((Bytes × Int) × Bytes) := []
+  params : Option CmtParams := none
+  hpEnc : Bytes := []
+  metaTx : Option Bytes := none
+  proof : Option Merkle.Proof := none
+
+def Oracles.lib (o : Oracles) : DLib where
+  headerHash := fun _ => o.headerHash
+  headerEnc := fun _ => o.headerEnc
+  decBlockMeta := fun _ => o.blockMeta
+  decCommit := fun _ => o.commit
+  sigEnc := id
+  decResults := fun _ => o.results
+  detEnc := fun c d gw gu => ((o.detTable.find? (·.1 == (c, d, gw, gu))).map (·.2)).getD []
+  decValidators := fun _ => o.validators
+  valEnc := fun pk pw => ((o.valTable.find? (·.1 == (pk, pw))).map (·.2)).getD []
+  decParams := fun _ => o.params
+  hashedParamsEnc := fun _ _ => o.hpEnc
+  paramsEnc := id
+  decMetaTx := fun _ => o.metaTx
+  decProof := fun _ => o.proof
+
+structure BlockView where
+  b : Block
+  m : BlockMeta
+  c : Commit Bytes
+
+structure St where
+  refBlock : Option BlockView := none
+  refResults : Option (Int × ResultsMeta Unit) := none
+  refVals : Option (Int × ValidatorSet) := none
+  refParams : Option (Int × CmtParams × Bytes) := none
+
+/-! ### agreement predicates (the conclusions of the `…_agree` theorems, executable) -/
+
+def blockAgree (x y : BlockView) : Bool :=
+  x.b.height == y.b.height && x.b.hash == y.b.hash && x.b.time == y.b.time &&
+  x.b.stateRoot == y.b.stateRoot && x.m.header == y.m.header && x.c.sigs == y.c.sigs &&
+  (x.c.sigs.isEmpty || (x.c.height == y.c.height && x.c.blockID == y.c.blockID))
+
+def detOf (r : TxResult Unit) : Nat × Bytes × Int × Int := (r.code, r.data, r.gasWanted, r.gasUsed)
+
+def resultsAgree (x y : Int × ResultsMeta Unit) : Bool :=
+  x.1 == y.1 && x.2.txs.map detOf == y.2.txs.map detOf
+
+def valsAgree (x y : Int × ValidatorSet) : Bool :=
+  x.1 == y.1 && x.2.validators.map (fun v => (v.pubKey, v.power)) == y.2.validators.map (fun v => (v.pubKey, v.power))
+
+def paramsAgree (x y : Int × CmtParams × Bytes) : Bool :=
+  x.1 == y.1 && x.2.1.blockMaxBytes == y.2.1.blockMaxBytes && x.2.1.blockMaxGas == y.2.1.blockMaxGas &&
+  x.2.2 == y.2.2
+
+/-! ### parsing of composite values -/
+
+def parseHeader (kv : KV) : Option Header := do
+  let h ← getInt kv "lb.h"
+  pure { height := h,
+         time := { sec := (getInt kv "lb.ts").getD 0, nsec := (getNat kv "lb.tn").getD 0 },
+         appHash := (getHex kv "lb.app").getD [],
+         dataHash := (getHex kv "lb.dh").getD [],
+         lastCommitHash := (getHex kv "lb.lch").getD [],
+         lastBlockID := (getHex kv "lb.lbid").getD [],
+         consensusHash := (getHex kv "lb.ch").getD [],
+         nextValidatorsHash := (getHex kv "lb.nvh").getD [],
+         lastResultsHash := (getHex kv "lb.lrh").getD [],
+         other := [] }
+
+def parseTxResult (s : String) : Option ((TxResult Unit) × Bytes) :=
+  match s.splitOn ":" with
+  | [c, d, gw, gu, enc] => do
+    let c ← c.toNat?
+    let d ← hexE d
+    let gw ← parseInt gw
+    let gu ← parseInt gu
+    let enc ← hexE enc
+    pure ({ code := c, data := d, gasWanted := gw, gasUsed := gu, log := [], info := [], codespace := [], events := () }, enc)
+  | _ => none
+
+def parseTxResults (s : String) : Option (List ((TxResult Unit) × Bytes)) :=
+  if s == "-" then some [] else (s.splitOn ",").mapM parseTxResult
+
+def parseVal (s : String) : Option (Validator × Bytes) :=
+  match s.splitOn ":" with
+  | [pk, pw, enc] => do
+    let pk ← hexE pk
+    let pw ← parseInt pw
+    let enc ← hexE enc
+    pure ({ address := [], pubKey := pk, power := pw, priority := 0 }, enc)
+  | _ => none
+
+def parseVals (s : String) : Option (List (Validator × Bytes)) :=
+  if s == "-" then some [] else (s.splitOn ",").mapM parseVal
+
+def resultsOracles (kv : KV) : Option Oracles := do
+  if getFlag kv "md" then
+    let l ← get kv "txs" >>= parseTxResults
+    pure { results := some { txs := l.map (·.1), beginEvents := (), endEvents := () },
+           detTable := l.map fun p => (detOf p.1, p.2) }
+  else pure {}
+
+/-! ### the ops -/
+
+def mkHeader (app dh : Bytes) : Header :=
+  { height := 0, time := ⟨0, 0⟩, appHash := app, dataHash := dh, lastCommitHash := [], lastBlockID := [],
+    consensusHash := [], nextValidatorsHash := [], lastResultsHash := [], other := [] }
+
+def diverge (what model impl : String) : String := s!"DIVERGE {what} model={model} impl={impl}"
+
+def opBlock (st : St) (kv : KV) : Option (St × String) := do
+  let want ← get kv "want"
+  let lb ← parseHeader kv
+  let b : Block := {
+    height := ← getInt kv "b.h", hash := ← getHex kv "b.hash",
+    time := { sec := ← getInt kv "b.ts", nsec := ← getNat kv "b.tn" },
+    stateRoot := { ns := ← getHex kv "b.ns", version := ← getNat kv "b.ver", type := ← getNat kv "b.typ",
+                   hash := ← getHex kv "b.root" },
+    size := (getNat kv "b.size").getD 0, metaB := [] }
+  let m : Option BlockMeta ←
+    if getFlag kv "md" then do
+      let hdr ← getHex kv "m.hdr"
+      pure (some { header := hdr, lastCommit := [] })
+    else pure none
+  let c : Option (Commit Bytes) ←
+    if getFlag kv "cd" then do
+      let sigs ← getList kv "c.sigs"
+      pure (some { height := (getInt kv "c.h").getD 0, round := (getInt kv "c.r").getD 0,
+                   blockID := (getHex kv "c.bid").getD [], sigs := sigs })
+    else pure none
+  let o : Oracles := { headerHash := ← getHex kv "lb.hash", headerEnc := ← getHex kv "lb.enc",
+                       blockMeta := m, commit := c }
+  let v := verifyBlock o.lib H b lb
+  if v.toString != want then return (st, diverge "verifyBlock" v.toString want)
+  if want != "ok" then return (st, "ok")
+  if !blockSpec o.lib H b lb then return (st, "DIVERGE spec: accepted block violates blockSpec")
+  match m, c with
+  | some m, some c =>
+    let view : BlockView := { b := b, m := m, c := c }
+    if getFlag kv "ref" then return ({ st with refBlock := some view }, "ok")
+    match st.refBlock with
+    | some r => if blockAgree r view then return (st, "ok")
+                else return (st, "DIVERGE spec: accepted block differs from the reference in a bound field")
+    | none => return (st, "ok")
+  | _, _ => return (st, "DIVERGE spec: accepted block without decodable meta")
+
+def checkResults (st : St) (kv : KV) (want : String) (v : RV × Option (ResultsMeta Unit)) (h : Int) (what : String) :
+    St × String :=
+  if v.1.toString != want then (st, diverge what v.1.toString want) else
+  if want != "ok" then (st, "ok") else
+  match v.2 with
+  | none => (st, "DIVERGE spec: accepted results without meta")
+  | some m =>
+    if getFlag kv "ref" then ({ st with refResults := some (h, m) }, "ok")
+    else if getFlag kv "skip" then (st, "ok")     -- the latest-height exception: nothing is bound but the height
+    else match st.refResults with
+      | some r => if resultsAgree r (h, m) then (st, "ok")
+                  else (st, "DIVERGE spec: accepted results differ from the reference in a bound field")
+      | none => (st, "ok")
+
+def opRes (st : St) (kv : KV) : Option (St × String) := do
+  let want ← get kv "want"
+  let o ← resultsOracles kv
+  let lb ← parseHeader kv
+  let r : BlockResults := { height := ← getInt kv "r.h", metaB := [] }
+  let rh ← getHex kv "rh"
+  pure (checkResults st kv want (verifyBlockResultsPure o.lib H r rh lb) r.height "verifyBlockResults")
+
+def opResCore (st : St) (kv : KV) : Option (St × String) := do
+  let want ← get kv "want"
+  let o ← resultsOracles kv
+  let lb ← parseHeader kv
+  let r : BlockResults := { height := ← getInt kv "r.h", metaB := [] }
+  let last : Option Int ← match get kv "last" with
+    | some "none" => pure none
+    | some s => (parseInt s).map some
+    | none => none
+  let next ← getOptHex kv "next"
+  let lc : LightClient := {
+    last := last,
+    trusted := fun h => if h == lb.height + 1 then next.map (fun x => { lb with height := h, lastResultsHash := x }) else none }
+  let v := verifyBlockResults o.lib H lc r lb
+  -- in the skip branch nothing but the height is bound
+  let kv := if last.any (· ≤ lb.height) then ("skip", "1") :: kv else kv
+  pure (checkResults st kv want v r.height "Core.verifyBlockResults")
+
+def opVals (st : St) (kv : KV) : Option (St × String) := do
+  let want ← get kv "want"
+  let lb ← parseHeader kv
+  let v : Validators := { height := ← getInt kv "v.h", metaB := [] }
+  let (vs, o) : Option ValidatorSet × Oracles ←
+    if getFlag kv "md" then do
+      let l ← get kv "vals" >>= parseVals
+      let vs : ValidatorSet := { validators := l.map (·.1), proposer := { address := [], pubKey := [], power := 0, priority := 0 } }
+      pure (some vs, { validators := some vs, valTable := l.map fun p => ((p.1.pubKey, p.1.power), p.2) })
+    else pure (none, {})
+  let r := verifyNextValidators o.lib H v lb
+  if r.toString != want then return (st, diverge "verifyNextValidators" r.toString want)
+  if want != "ok" then return (st, "ok")
+  match vs with
+  | none => return (st, "DIVERGE spec: accepted validators without decodable meta")
+  | some vs =>
+    if getFlag kv "ref" then return ({ st with refVals := some (v.height, vs) }, "ok")
+    match st.refVals with
+    | some x => if valsAgree x (v.height, vs) then return (st, "ok")
+                else return (st, "DIVERGE spec: accepted validators differ from the reference in a bound field")
+    | none => return (st, "ok")
+
+def opParams (st : St) (kv : KV) : Option (St × String) := do
+  let want ← get kv "want"
+  let lb ← parseHeader kv
+  let pp ← getHex kv "pp"
+  let p : Parameters Bytes := { height := ← getInt kv "p.h", parameters := pp, metaB := [] }
+  let (cp, o) : Option CmtParams × Oracles ←
+    if getFlag kv "md" then do
+      let cp : CmtParams := { blockMaxBytes := ← getInt kv "mb", blockMaxGas := ← getInt kv "mg",
+                              evidence := [], validator := [], version := [] }
+      pure (some cp, { params := some cp, hpEnc := ← getHex kv "hp" })
+    else pure (none, {})
+  let stp ← getOptHex kv "st"
+  let r := verifyParameters o.lib H p lb stp
+  if r.toString != want then return (st, diverge "verifyParameters" r.toString want)
+  if want != "ok" then return (st, "ok")
+  match cp with
+  | none => return (st, "DIVERGE spec: accepted parameters without decodable meta")
+  | some cp =>
+    if getFlag kv "ref" then return ({ st with refParams := some (p.height, cp, pp) }, "ok")
+    match st.refParams with
+    | some x => if paramsAgree x (p.height, cp, pp) then return (st, "ok")
+                else return (st, "DIVERGE spec: accepted parameters differ from the reference in a bound field")
+    | none => return (st, "ok")
+
+def parseProof (kv : KV) : Option Merkle.Proof := do
+  pure { total := ← getInt kv "total", index := ← getInt kv "index", leafHash := ← getHex kv "leaf",
+         aunts := ← getList kv "aunts" }
+
+def opVProof (kv : KV) : Option String := do
+  let want ← get kv "want"
+  let p : Option Merkle.Proof ← if getFlag kv "dec" then (parseProof kv).map some else pure none
+  let o : Oracles := { proof := p }
+  let root ← getOptHex kv "root"
+  let lb : Header := { height := 0, time := ⟨0, 0⟩, appHash := [], dataHash := root.getD [], lastCommitHash := [], lastBlockID := [],
+                       consensusHash := [], nextValidatorsHash := [], lastResultsHash := [], other := [] }
+  let tx ← getHex kv "tx"
+  let v := verifyTransactionProof o.lib H [] tx lb
+  if v.toString != want then return diverge "verifyTransactionProof" v.toString want
+  -- spec-on-implementation: an accepted proof whose total is the length of a list with that root
+  -- (given as `txs=`) proves the transaction at the index.
+  if want == "ok" then
+    match getList kv "txs", p with
+    | some txs, some p =>
+      if Merkle.txRoot H txs == root.getD [] then
+        if !txs.contains tx then return "DIVERGE spec: accepted proof for a transaction that is not in the block"
+        if p.total == txs.length && txs[p.index.toNat]? != some tx then
+          return "DIVERGE spec: accepted proof with the right total for the wrong index"
+        return "ok"
+      else return "ok"
+    | _, _ => return "ok"
+  return "ok"
+
+def opSRoot (kv : KV) : Option String := do
+  let want ← get kv "want"
+  let next ← getOptHex kv "next"
+  let cur ← getOptHex kv "cur"
+  let ptxs : Option (List Bytes) ← match get kv "ptxs" with
+    | some "none" => pure none
+    | some s => (hexList s).map some
+    | none => none
+  let dm ← getOptHex kv "dm"
+  let o : Oracles := { metaTx := dm }
+  let hdr (app dh : Bytes) : Header := mkHeader app dh
+  let lc : LightClient := { last := none, trusted := fun h =>
+    if h == 11 then next.map (fun a => hdr a []) else if h == 10 then cur.map (fun d => hdr [] d) else none }
+  let r := fetchStateRoot o.lib H lc ptxs 10
+  let rs := match r with | none => "err" | some x => showHex x
+  if rs != want then return diverge "fetchStateRoot" rs want
+  return "ok"
+
+def step (st : St) (line : String) : St × String :=
+  match words line with
+  | [] => (st, "ok")
+  | op :: rest =>
+    let kv := parseKV rest
+    let bad : St × String := (st, "DIVERGE bad-op " ++ op)
+    let pure1 (r : Option String) : St × String := match r with | some s => (st, s) | none => bad
+    let st1 (r : Option (St × String)) : St × String := match r with | some x => x | none => bad
+    match op with
+    | "sha" => pure1 do
+        let i ← getHex kv "in"; let w ← getHex kv "want"
+        pure (if H i == w then "ok" else diverge "sha256" (showHex (H i)) (showHex w))
+    | "root" => pure1 do
+        let l ← getList kv "items"; let w ← getHex kv "want"
+        pure (if Merkle.root H l == w then "ok" else diverge "root" (showHex (Merkle.root H l)) (showHex w))
+    | "txroot" => pure1 do
+        let l ← getList kv "txs"; let w ← getHex kv "want"
+        pure (if Merkle.txRoot H l == w then "ok" else diverge "txroot" (showHex (Merkle.txRoot H l)) (showHex w))
+    | "proof" => pure1 do
+        let l ← getList kv "txs"; let i ← getNat kv "i"; let p ← parseProof kv
+        pure (if Merkle.txProof H l i == p then "ok" else s!"DIVERGE proof for index {i} differs from the model's")
+    | "vproof" => pure1 (opVProof kv)
+    | "vtxs" => pure1 do
+        let l ← getList kv "txs"; let dh ← getHex kv "dh"; let w ← get kv "want"
+        let lb : Header := { height := 0, time := ⟨0, 0⟩, appHash := [], dataHash := dh, lastCommitHash := [], lastBlockID := [],
+                             consensusHash := [], nextValidatorsHash := [], lastResultsHash := [], other := [] }
+        let v := if verifyTransactions H l lb then "1" else "0"
+        pure (if v == w then "ok" else diverge "verifyTransactions" v w)
+    | "vblock" => st1 (opBlock st kv)
+    | "vres" => st1 (opRes st kv)
+    | "vresc" => st1 (opResCore st kv)
+    | "vvals" => st1 (opVals st kv)
+    | "vparams" => st1 (opParams st kv)
+    | "sroot" => pure1 (opSRoot kv)
+    | _ => bad
+
+def main : IO Unit := loop step {}
+
 end OasisModel.Stateless.Driver
